@@ -29,8 +29,11 @@ def _args():
     ap.add_argument("--runs", default="0:10")
     ap.add_argument("--fuel", type=int, default=0)
     ap.add_argument("--replay")
+    ap.add_argument("--replay-all", action="store_true", help="with --replay: check every step of the history, not only the recorded one")
     ap.add_argument("--gen-digest", action="store_true")
     ap.add_argument("--cold-exec", help="internal: run a cone program from this JSON file in THIS fresh interpreter")
+    ap.add_argument("--record", help="hand-written history {title, steps}: record its first divergence as a corpus entry")
+    ap.add_argument("--out")
     ap.add_argument("--oracle-pair", help="internal: {steps, envs, sid, fuel}: fork-cold vs fresh-interpreter-cold")
     ap.add_argument("--replay-dir", default=os.path.join(os.path.dirname(HERE), "replays"))
     ap.add_argument("--max-minimise", type=int, default=1)
@@ -101,9 +104,42 @@ def main():
         print(json.dumps({"fork": fork, "fresh": fresh, "cone": len(cprog)}))
         return 0
 
+    if a.record:
+        with open(a.record) as f:
+            doc = json.load(f)
+        steps = doc["steps"]
+        for i, st in enumerate(steps):
+            st.setdefault("id", i)
+            st.setdefault("c", 0)
+        envs = doc.get("envs") or gen.make_envs_from_texts([s["text"] for s in steps if "text" in s])
+        res = sh.evaluate_program(steps, envs, fuel=fuel, shims=False)
+        if not res["divergences"]:
+            print(json.dumps({"recorded": False, "why": "no divergence on this tree"}))
+            return 0
+        d0 = res["divergences"][0]
+        mini = shrink.Minimiser(steps, envs, d0["id"], d0["class"], fuel=fuel)
+        best = mini.run() or steps
+        ren, sid = shrink.renumber(best, d0["id"])
+        shrink.write_replay(a.out, steps=ren, envs=envs, sid=sid, klass=d0["class"], detail=mini.last_detail or d0["detail"],
+                            meta={"title": doc.get("title", ""), "origin": doc.get("origin", "hand-written"),
+                                  "hash_seed": int(os.environ.get("PYTHONHASHSEED", "0") or 0), "fuel": fuel,
+                                  "original_steps": len(steps), "minimised_steps": len(ren)})
+        print(json.dumps({"recorded": True, "class": d0["class"], "step": sid, "steps": len(ren), "detail": mini.last_detail}))
+        return 0
+
     if a.replay:
         with open(a.replay) as f:
             doc = json.load(f)
+        if a.replay_all:
+            res = sh.evaluate_program(doc["steps"], doc["envs"], fuel=doc.get("fuel", fuel), shims=False)
+            if res["harness"]:
+                raise sh.HarnessError(str(res["harness"]))
+            sh.assert_pristine()
+            ds = res["divergences"]
+            print(json.dumps({"replay": a.replay, "reproduced": False, "diverged": bool(ds), "observed": ds[0] if ds else None,
+                              "all": [[d["id"], d["class"]] for d in ds], "probes": len(res["probes"]),
+                              "hash_seed": os.environ.get("PYTHONHASHSEED")}))
+            return 0
         same, d = shrink.replay(doc, fuel=doc.get("fuel", fuel))
         sh.assert_pristine()
         print(json.dumps({"replay": a.replay, "reproduced": bool(same), "diverged": d is not None,
